@@ -215,7 +215,7 @@ def gen_nested(tier, rng):
 
 def gen_random(tier, rng):
     cases = []
-    nr = 400 if tier == "quick" else 6000
+    nr = 600 if tier == "quick" else 40000
     for _ in range(nr):
         t = rc.rand_tree(rng, depth=2, allow_window=False)
         if t[0] != "list":
